@@ -119,7 +119,22 @@ def check(ctx):
     fb = sorted([n for n in g.nodes if n.kind == 'stmt' and isinstance(n.ast, ast.Assign) and norm(n.ast.targets[0]) == frame], key=lambda n: (n.id in body, n.line))   # the binding before the loop first (inlined code keeps its own line numbers)
     deq = [(n, c) for n, c in g.find(lambda q: method_call(q, 'get') and 'out_queue' in norm(q.func.value)) if n.id in body]
     ctx.need(len(deq) >= 1 and len(fb) >= 2, 'run(): dequeue / frame bindings not found (dequeues=%d, bindings=%d)' % (len(deq), len(fb)))
-    ctx.inst('R6', run, 'initial-null-frame', fb[0].id not in body and norm(fb[0].ast.value) == "array.array('B', [255])", 'the first frame is the null packet 0xFF; found %s' % norm(fb[0].ast.value))
+    def initial_items(v):
+        # array.array('B'[, <display or constant>]) -> the elements it starts with ([] when none), None if not such a constructor
+        if not (isinstance(v, ast.Call) and norm(v.func) in ('array.array', 'array') and v.args and fold_in(run, v.args[0]) == 'B' and not v.keywords):
+            return None
+        if len(v.args) == 1:
+            return []
+        a = v.args[1]
+        if isinstance(a, (ast.Tuple, ast.List)):
+            return list(a.elts)
+        c = fold_in(run, a)
+        if isinstance(c, (list, tuple)) and all(isinstance(x, int) for x in c):
+            return [ast.Constant(value=x) for x in c]
+        return None
+    i0 = initial_items(fb[0].ast.value)
+    ctx.inst('R6', run, 'initial-null-frame', fb[0].id not in body and i0 is not None and [fold_in(run, e) for e in i0] == [255],
+             'the first frame is the null packet 0xFF; found %s' % norm(fb[0].ast.value))
     ctx.inst('R6', run, 'rebind-after-dequeue', all(b.id in body and any(g.dominates(d[0], b) for d in deq) for b in fb[1:]), 'the frame is rebuilt only after the dequeue')
     # ---- R5 ----------------------------------------------------------------------------------------
     cont_edges = []
@@ -338,6 +353,12 @@ def check(ctx):
              'downlink data is taken only from an acknowledged transmission')
     ctx.inst('R9', run, 'dequeue-into-next-frame', norm(deq[0][0].ast.targets[0]) == 'outPacket' if isinstance(deq[0][0].ast, ast.Assign) else False, 'the dequeued packet becomes the next frame')
     apn = [(n, norm(c.args[0])) for n, c in g.find(lambda q: method_call(q, 'append') and norm(q.func.value) == frame) if n.id in body]
+    # a frame born with elements (`array.array('B', (outPacket.header,))`) has them appended at its binding
+    for b_ in fb:
+        if b_.id in body:
+            its_ = initial_items(b_.ast.value)
+            ctx.need(its_ is not None, 'run(): frame binding %s not understood' % norm(b_.ast.value)[:50])
+            apn += [(b_, str(fold_in(run, e_)) if isinstance(fold_in(run, e_), int) else norm(e_)) for e_ in its_]
     app = sorted((n.line, t) for n, t in apn)
     hdr = [n for n, t in apn if t == 'outPacket.header']
     dat = [n for n, t in apn if t in ('X', 'ord(X)')]
